@@ -453,7 +453,6 @@ def run(ctx):
     replayed = steps = diverged = 0
     used_workers = []
     timing["waiting_for_graphs_s"] = timing["replay_s"] = 0.0
-    order = {n: k for k, (n, _) in enumerate(cfgs)}
     for label, part in batches:
         t0 = time.time()
         res, nodes, edges, init = jobs[label].result()
@@ -485,6 +484,7 @@ def run(ctx):
         workers = replay_workers()
         used_workers.append(workers)
         walks = _covering_walks(edges, init)
+        order = {n: k for k, n in enumerate(sorted(by_name, key=lambda n: len(by_name[n])))}
         walks.sort(key=lambda w: order.get(scen_of[w[0]], 99))          # stable: smallest configurations first
         per = {n: {"states": len(by_name.get(n, ())), "edges": 0, "edges_replayed": 0, "walks": 0} for n, _ in part}
         del by_name
